@@ -396,10 +396,9 @@ def op_multiset(F, bodies):
     return ms
 
 
-def sibling(ctx, R):
+def sibling(ctx, R, pairs=(('Sort', 'BatchSort'), ('VisualSort', 'BatchVisualSort'))):
     F = ctx.F
     n = 0
-    pairs = (('Sort', 'BatchSort'), ('VisualSort', 'BatchVisualSort'))
     for s_name, b_name in pairs:
         sb = ctx.anchor(R, T.TRACKERS[s_name]['predict'])
         bp = ctx.anchor(R, T.TRACKERS[b_name]['predict'])
